@@ -7,7 +7,7 @@ let wflag (s : string) : bool = (s = "w")
 let err_name = function
   | EIllegalKey -> "invalid-key" | EIllegalValue -> "invalid-value" | EBucketExist -> "bucket-exists"
   | EBucketNotFound -> "bucket-not-found" | EInvalidBucketName -> "invalid-name" | EIllegalBucketPath -> "invalid-path"
-  | EWriteNotAllowed -> "write-not-allowed" | ENotSupported -> "not-supported" | EOther -> "other"
+  | EWriteNotAllowed -> "write-not-allowed" | ENotSupported -> "not-supported" | EClosed -> "closed" | EOther -> "other"
 let ents_s (l : (z list * z list) list) : string =
   let l = List.map (fun (k, v) -> (string_of_zlist k, string_of_zlist v)) l in
   let l = List.sort compare l in
@@ -31,6 +31,7 @@ let parse (t : string list) : op option =
   | ["rend"] -> Some OREnd
   | ["ubegin"] -> Some OUBegin
   | ["uend"; f] -> Some (OUEnd (f = "1"))
+  | ["close"] -> Some OClose
   | ["reopen"] -> Some OReopen
   | ["dump"] -> Some ODump
   | ["top"; w; d; n] -> Some (OTop (wflag w, nat_s d, bs n))
@@ -53,6 +54,8 @@ let parse (t : string list) : op option =
   | ["rel"; i] -> Some (ORelease (nat_s i))
   | ["bp"; p] -> Some (OBytesPrefix (bs p))
   | _ -> None
+(* "nosnap": the code as first found (a read transaction reads whatever is committed at each read) *)
+let step_fn = if Array.length Sys.argv > 1 && Sys.argv.(1) = "nosnap" then step_unrepaired else step
 let () =
   let st = ref init_state in
   let out = Buffer.create (1 lsl 20) in
@@ -63,7 +66,7 @@ let () =
      | "reset" :: _ -> st := init_state; Buffer.add_string out (opstr ^ "\tok\n")
      | _ ->
        (match parse toks with
-        | Some o -> let (st', r) = step !st o in st := st'; Buffer.add_string out (opstr ^ "\t" ^ show r ^ "\n")
+        | Some o -> let (st', r) = step_fn !st o in st := st'; Buffer.add_string out (opstr ^ "\t" ^ show r ^ "\n")
         | None -> Buffer.add_string out (opstr ^ "\tunparsed\n")));
     if Buffer.length out > (1 lsl 19) then (print_string (Buffer.contents out); Buffer.clear out));
   print_string (Buffer.contents out)
